@@ -36,11 +36,11 @@ type Taint struct {
 	// complex constraints re-evaluated when pts of a node grows
 	onPts map[int][]func()
 
-	Source    func(call ssa.CallInstruction) Label // label put on the result of a call (sources)
-	Declass   func(name string) bool               // callee whose result carries no label
-	ExtReader func(name string) (Label, bool)      // framework request readers: result label
-	ExtSink   func(name string) bool               // framework sinks: no write-back, no result
-	ExtErrClean func(name string) bool             // external callees whose error result does not echo their input
+	Source      func(call ssa.CallInstruction) Label // label put on the result of a call (sources)
+	Declass     func(name string) bool               // callee whose result carries no label
+	ExtReader   func(name string) (Label, bool)      // framework request readers: result label
+	ExtSink     func(name string) bool               // framework sinks: no write-back, no result
+	ExtErrClean func(name string) bool               // external callees whose error result does not echo their input
 }
 
 func NewTaint(w *World, fns []*ssa.Function) *Taint {
